@@ -218,7 +218,7 @@ theorem C12_panic_closes (cf : Server.Conf) (now : Nat) (fault : Option Fault) (
   obtain ⟨res, evs, st'⟩ := rr
   simp only at hpanic
   subst hpanic
-  simp only
+  simp only [isCrash, Bool.false_eq_true, if_false]
   split
   · rfl
   · cases cmd <;> rfl
